@@ -99,7 +99,14 @@ namespace c09
             static char store[131072];
             static const size_t caps[] = {65536, 70000, 131072, 65535};
             igris::archive::writable_buffer wb;
-            wb = igris::buffer(store, caps[((const unsigned char *)m.pointer())[0] % 4]); // (chosen by the low byte of the length on the wire)
+            size_t cap_ = caps[((const unsigned char *)m.pointer())[0] % 4]; // (chosen by the low byte of the length on the wire)
+            // the destination is described by assignment, or through the two setters in either order
+            switch (((const unsigned char *)m.pointer())[0] / 4 % 3)
+            {
+            case 0: wb = igris::buffer(store, cap_); break;
+            case 1: wb.size(cap_); wb.data(store); break;
+            default: wb.data(store); wb.size(cap_); break;
+            }
             m.load(wb);
             payload.assign(wb.data(), wb.size());
             m.load(tail);
@@ -321,6 +328,13 @@ namespace c09
             igris::archive::binary_buffer_writer bw(buf.get(), ref.size());
             igris::serialize(bw, v);
             size_t n = (size_t)(bw.ptr - buf.get());
+            {
+                // a second writer constructed over the bytes already written (as for back-patching a header) leaves them alone
+                std::string before(buf.get(), n);
+                igris::archive::binary_buffer_writer second(buf.get(), ref.size());
+                if (memcmp(before.data(), buf.get(), n) != 0) kit::violate("C09/writers-disagree@archive", "constructing a second binary_buffer_writer over a buffer changed the %zu bytes the first writer had produced", n);
+                (void)second;
+            }
             std::string conv = igris::serialize(v); // convenience function must agree with the archive
             {
                 // two one-shot encodings alive at the same time (as in serialize(a) + serialize(b)): the first must not change
